@@ -137,3 +137,30 @@ func verifC09Retry() {
 	vAssert(rn == 5+len(wantMsg) && vBytesEq(buf[5:rn], wantMsg), "retried hello replaced by its inner hello")
 	vReach("retried")
 }
+
+// verifC09ManyKeys: five valid keys that all share the config id and the cipher
+// suite (a server rotating keys under one id); the target sits at any position,
+// the last included: the hello is accepted however many candidates come first.
+func verifC09ManyKeys() {
+	name := []byte("pub.example")
+	all := [][2]uint16{{1, 1}}
+	id := vByte()
+	pos := vInt(0, 4)
+	var keys []Key
+	var target vKeyCfg
+	for i := 0; i < 5; i++ {
+		k := vMakeKey(i, id, all, name)
+		if i == pos {
+			target = k
+		}
+		keys = append(keys, k.key())
+	}
+	outer := vHello{version: 0x0303, random: vBytes(32), sid: vBytes(1), suites: []byte{0x13, 0x01}, comp: []byte{0}}
+	outer.exts = []vExt{vSNI(name), vVersions(0x0304), {0xfe0d, nil}}
+	inner := vHello{version: 0x0303, random: vBytes(32), suites: []byte{0x13, 0x02}, comp: []byte{0},
+		exts: []vExt{vSNI(vBytes(2)), vECHInner(), vVersions(0x0304)}}
+	s := vSeal(target, 1, 1, outer, 2, vEncodeInner(inner, 0))
+	c, err := NewConn(context.Background(), newVTransport(s.outer.record()), WithKeys(keys))
+	vAssert(err == nil && c.ECHAccepted(), "the hello is accepted however many keys with the same config id come before the right one")
+	vReach("many-keys")
+}
